@@ -250,6 +250,13 @@ func doOp(vm data.VM, o Op) (res Res) {
 		vm.AddShutdownCallback(data.NewIntValue(o.Val))
 	case "compiledfile":
 		vm.RegisterCompiledFile(o.Name, func() (data.GetValue, []data.Variable) { return nil, nil })
+	case "regglobal":
+		// what loading a file with a top-level variable $<name> does: RegisterGlobalContext(vars, ctx) with the file's own
+		// frame; the registry keeps the FIRST cell registered for a name (by `global $x` or by a file), for ever
+		if b, ok := vm.(*ort.VM); ok {
+			vars := []data.Variable{node.NewVariable(nil, o.Name, 0, nil)}
+			b.RegisterGlobalContext(vars, b.CreateContext(vars))
+		}
 	case "globalctx":
 		if b, ok := vm.(*ort.VM); ok {
 			b.RegisterGlobalContext(nil, b.CreateContext(nil))
